@@ -83,9 +83,11 @@ func gen(r *harn.Rng, tier string) interface{} {
 			}
 		case x < 63:
 			if pendReo[d] == 0 && pendDrop[d] == 0 {
-				k := r.Pick(0, 1, 1, 2, 3)
+				k := r.Pick(0, 1, 1, 2, 3, -1)
 				sc.Ops = append(sc.Ops, op{K: "dropnext", Dir: d, N: k})
-				pendDrop[d] = k
+				if k > 0 {
+					pendDrop[d] = k
+				}
 			}
 		case x < 75:
 			if pendReo[d] == 0 && pendDrop[d] == 0 {
@@ -258,6 +260,9 @@ func runBridge(env *simrt.Env, sc *scenario) {
 		case "dropnext":
 			br.DropNextNWrites(d, o.N)
 			models[d].dropN = o.N
+			if o.N < 0 {
+				models[d].dropN = 0 // a negative count asks for nothing
+			}
 		case "reordernext":
 			br.ReorderNextNWrites(d, o.N)
 			models[d].reorderN = o.N
